@@ -60,7 +60,14 @@ def gen_dir(rng, name, depth, counter, maxdepth):
     if depth < maxdepth:
         for _ in range(rng.randint(0, 2)):
             counter[0] += 1
-            d.dirs.append(gen_dir(rng, f"{rng.choice(['sub', 'aaa', 'zzz'])}{counter[0]}", depth + 1, counter, maxdepth))
+            r = rng.random()
+            if d.dirs and r < 0.35:
+                dn = d.dirs[0].name + rng.choice(["2", "_ref", "0"])  # a sibling whose name starts with the whole name of another one
+            elif r < 0.5:
+                dn = f"{rng.choice(['README', 'v1', 'notes'])}{counter[0]}.md"  # a directory may be named like a page file
+            else:
+                dn = f"{rng.choice(['sub', 'aaa', 'zzz'])}{counter[0]}"
+            d.dirs.append(gen_dir(rng, dn, depth + 1, counter, maxdepth))
     for _ in range(rng.randint(0, 1)):
         counter[0] += 1
         # copied verbatim: also hidden and backup files and nested directories
